@@ -1090,16 +1090,16 @@ def _native_histories(tier="quick", seed=0):
 
     ops = [op_slide, op_shape, op_picture, op_movie, op_chart, op_replace, op_ole, op_notes, op_link, op_relink, op_jump, op_layout_remove, op_rejected, op_core, op_read]
 
-    def out_of_order_deck():
+    def out_of_order_deck(names=(7, 3, 9)):
         import re
         import zipfile
 
         prs = Presentation()
-        for i in range(3):
+        for i in range(len(names)):
             prs.slides.add_slide(prs.slide_layouts[6]).shapes.add_textbox(0, 0, 10, 10).text_frame.text = "s%d" % i
         buf = io.BytesIO()
         prs.save(buf)
-        ren = {"slide1.xml": "slide7.xml", "slide2.xml": "slide3.xml", "slide3.xml": "slide9.xml"}
+        ren = {"slide%d.xml" % (i + 1): "slide%d.xml" % k for i, k in enumerate(names)}
         src = zipfile.ZipFile(io.BytesIO(buf.getvalue()))
         out = io.BytesIO()
         with zipfile.ZipFile(out, "w") as z:
@@ -1109,17 +1109,19 @@ def _native_histories(tier="quick", seed=0):
                 m = re.fullmatch(r"ppt/slides/(_rels/)?(slide\d+\.xml)(\.rels)?", n)
                 if m:
                     n2 = "ppt/slides/%s%s%s" % (m.group(1) or "", "TMP" + ren[m.group(2)], m.group(3) or "")
-                for a, b in ren.items():
-                    d = re.sub(rb'(["/])' + a.encode() + rb'"', lambda mm: mm.group(1) + b"TMP" + b.encode() + b'"', d)
+                # one pass, so that a name is never renamed twice
+                d = re.sub(rb'(["/])(slide\d+\.xml)"', lambda mm: mm.group(1) + b"TMP" + ren.get(mm.group(2).decode(), mm.group(2).decode()).encode() + b'"', d)
                 z.writestr(n2.replace("TMP", ""), d.replace(b"TMP", b""))
         return out.getvalue()
 
     N = 40 if tier == "quick" else 600
     L = 10 if tier == "quick" else 16
-    for label, start in (("default_template", None), ("out_of_order_slide_names", out_of_order_deck())):
+    perms = [(7, 3, 9), (1, 4, 3), (2, 1, 3), (1, 3, 2), (3, 2, 1), (2, 3, 4), (1, 2, 4), (1, 5, 3, 4)]
+    starts = [("default_template", None)] + [("slide_parts_named_%s" % "_".join(map(str, q)), out_of_order_deck(q)) for q in perms]
+    for label, start in starts:
         rnd = random.Random(seed * 7919 + (1 if start else 0))
         bad = None
-        for h in range(N):
+        for h in range(N if start is None or label.endswith("7_3_9") else max(4, N // 8)):
             prs = Presentation(io.BytesIO(start)) if start else Presentation()
             hist = []
             save_each = h % 3 == 0
@@ -1153,8 +1155,8 @@ def _native_histories(tier="quick", seed=0):
         rec("C02.native.histories[%s]" % label, bad)
     return {"contract": "C02.native_histories", "prop": "C02", "status": "ok", "obligations": obls, "paths": 0, "assumed": [], "functions": {},
             "notes": [], "solver_s": 0.0, "wall_s": _t.time() - t0,
-            "bounded": {"name": "C02.native_histories", "bound": "%d random histories of %d operations over 15 operation kinds, from the default template and from a deck with slide parts named 7,3,9; "
-                        "a third of the histories save (and inspect, re-open, compare) after every step, the rest at the end" % (2 * N, L),
+            "bounded": {"name": "C02.native_histories", "bound": "%d random histories of %d operations over 15 operation kinds, from the default template and from decks whose slide parts are named 7,3,9 / 1,4,3 / 2,1,3 / 1,3,2 / 3,2,1 / 2,3,4 / 1,2,4 / 1,5,3,4 in presentation order; "
+                        "a third of the histories save (and inspect, re-open, compare) after every step, the rest at the end" % (sum(N if (st is None or lb.endswith('7_3_9')) else max(4, N // 8) for lb, st in starts), L),
                         "evaluations": evals[0], "samples": [], "counted_as_proved": False}}
 
 
